@@ -418,6 +418,25 @@ Proof.
   apply cap_go_tr_subset in H. apply elem_of_list_omap in H as (i & _ & H). eapply find_task_elem, H.
 Qed.
 
+(* drf: the vote returns candidates only; every returned victim passed the share test with the allocation that
+   was left of its job after ALL candidates of the job looked at so far (itself included) *)
+Lemma drf_go_tr_spec : forall eps s ls l al c left, (c, left) ∈ drf_go_tr eps s ls al l ->
+  c ∈ l /\ drf_lets_go ls (dom_share eps left (total_res s)) = true.
+Proof.
+  intros eps s ls l. induction l as [|c0 r IH]; intros al c left; simpl; [intros H; inversion H|].
+  destruct (jobs s !! t_job c0) as [j|]; [|intros H; destruct (IH _ _ _ H); split; [right|]; auto].
+  destruct (drf_lets_go ls _) eqn:Hd.
+  - intros H. apply elem_of_cons in H as [[= -> ->]|H]; [split; [left|exact Hd]|].
+    destruct (IH _ _ _ H). split; [right|]; auto.
+  - intros H. destruct (IH _ _ _ H). split; [right|]; auto.
+Qed.
+
+Lemma drf_vote_subset : forall eps s p l c, c ∈ drf_vote eps s p l -> c ∈ l.
+Proof.
+  intros eps s p l c. unfold drf_vote. destruct (jobs s !! t_job p); [|intros H; inversion H].
+  intros H. apply elem_of_list_fmap in H as ([c' a] & -> & H). apply drf_go_tr_spec in H. apply H.
+Qed.
+
 (* every vote is a subset of the candidates *)
 Lemma vote_of_subset : forall eps E k s p l pk v c,
   vote_of eps E k s p l pk = Some v -> c ∈ v -> c ∈ l.
@@ -428,6 +447,7 @@ Proof.
   - intros [= <-] H. apply conf_vote_spec in H. tauto.
   - destruct (is_reclaim k); [|discriminate]. intros [= <-]. apply prop_vote_subset.
   - destruct (is_reclaim k); [|discriminate]. intros [= <-]. apply cap_vote_subset.
+  - destruct (is_reclaim k); [discriminate|]. intros [= <-]. apply drf_vote_subset.
 Qed.
 
 (* ------------------------------------------------------------------ *)
@@ -598,6 +618,7 @@ Theorem victims_eligible : forall eps E k s p l c,
           (t_job c = t_job p /\ t_prio c < t_prio p)
       | KProp => is_reclaim k = true -> c ∈ prop_vote eps E s l
       | KCap => is_reclaim k = true -> c ∈ cap_vote eps E s p l
+      | KDrf => is_reclaim k = false -> c ∈ drf_vote eps s p l
       end.
 Proof.
   intros eps E k s p l c Hnd Hc. split; [eapply victims_subset, Hc|].
@@ -606,6 +627,8 @@ Proof.
   - eapply victim_gang_member; eauto.
   - intros Hr. eapply victim_prio_ok; eauto.
   - eapply victim_conf_ok; eauto.
+  - intros Hr. eapply (victim_in_every_vote eps E k s p l tier c pl); eauto.
+    rewrite Hk. simpl. rewrite Hr. reflexivity.
   - intros Hr. eapply (victim_in_every_vote eps E k s p l tier c pl); eauto.
     rewrite Hk. simpl. rewrite Hr. reflexivity.
   - intros Hr. eapply (victim_in_every_vote eps E k s p l tier c pl); eauto.
